@@ -317,6 +317,8 @@ func checkC01(c *Ctx) (string, []string) {
 		c.Check(nok > 0, "C01.program-immutable", "PVM · table writers", token.NoPos, fmt.Sprintf("%d element stores, all inside the deblob path", nok), "no store into the program tables found at all (the pre-decoder was not recognised)")
 	}
 
+	c01MulUpperBorrow(c, e)
+
 	c.Rule("C01.reads-before-writes", "within every instruction handler of either engine all register reads precede the register write (operands refer to the prior state even when source and destination registers coincide)", 200)
 	e.ruleReadsBeforeWrites("C01.reads-before-writes", t)
 
